@@ -16,6 +16,7 @@
  *   destroy A|B                    hwloc_topology_destroy; "frame" for the survivor
  *   echo <text>
  * ops:  restrict <set> <flags> | misc <depth> <idx> <name> | group <set> | distadd <depth> <n> <kind> <flags> <seed>
+ *       disthet <depth:idx,...> <kind> <seed> (matrix over mixed object types) |
  *       distrm | distrmdepth <depth> | distfail | disthandle <name> <0 report|1 transform|3 release_remove> | mreg <name> <flags> | mset <id> <numaidx> <-|set> <value> | kind <set> <eff> <name> <value>
  *       robj <depth> <idx> <flags> (restrict to that object's cpuset/nodeset) | gobj <depth> <i> <j> | kobj <depth> <idx> <eff> <name> <value>
  *       mseto <id> <numaidx> <depth> <idx> <value> | obs | (depth >= 1000: depth of type depth-1000)
@@ -113,6 +114,24 @@ static int apply_op(hwloc_topology_t t, char *op, int *handled)
     if (!h) return -1;
     if (hwloc_distances_add_values(t, h, u, objs, vals, 0) < 0) return -1;
     return hwloc_distances_add_commit(t, h, fl);
+  }
+  /* application-added matrix over MIXED object types: disthet <depth:idx,depth:idx,...> <kind> <seed> */
+  if (sscanf(op, "disthet %4199s %lu %u", a1, &kind, &u2) == 3) {
+    hwloc_obj_t objs[32]; hwloc_uint64_t vals[32 * 32]; unsigned n = 0, i, j; hwloc_distances_add_handle_t h; char nm[32]; char *p = a1;
+    while (*p && n < 32) {
+      int dd = 0; unsigned ii = 0; int used = 0;
+      if (sscanf(p, "%d:%u%n", &dd, &ii, &used) < 2) break;
+      objs[n] = objat(t, dd, ii);
+      if (objs[n]) { for (i = 0; i < n; i++) if (objs[i] == objs[n]) break; if (i == n) n++; }
+      p += used; if (*p == ',') p++;
+    }
+    if (n < 2) { errno = ENOENT; return -2; }
+    for (i = 0; i < n; i++) for (j = 0; j < n; j++) vals[i * n + j] = i == j ? 10 : 20 + ((i + 2 * j + u2) % 13);
+    snprintf(nm, sizeof nm, "hwv%u", u2);
+    h = hwloc_distances_add_create(t, nm, kind, 0);
+    if (!h) return -1;
+    if (hwloc_distances_add_values(t, h, n, objs, vals, 0) < 0) return -1;
+    return hwloc_distances_add_commit(t, h, 0);
   }
   if (!strcmp(op, "distrm")) return hwloc_distances_remove(t);
   if (sscanf(op, "distrmdepth %d", &d) == 1) {
@@ -301,6 +320,10 @@ int main(void)
       else printf("opcmp DIFF rcA=%d rcB=%d a=[%.300s] b=[%.300s]\n", rc1, rc2, repA, op_report);
       free(repA);
       print_obscmp(A, B);
+      { /* the same view without gp_index (objects by type:logical_index, no XML): must agree even when the op created objects */
+        char *oa = hwv_observe_str(A, 2), *ob = hwv_observe_str(B, 2);
+        if (!strcmp(oa, ob)) printf("nogpcmp same\n"); else { fputs("nogpcmp DIFF", stdout); hwv_first_diff(stdout, oa, ob); fputc('\n', stdout); }
+        free(oa); free(ob); }
     } else if (!strcmp(line, "destroy A") || !strcmp(line, "destroy B")) {
       hwloc_topology_t *x = line[8] == 'A' ? &A : &B, y = line[8] == 'A' ? B : A;
       char *before = y ? hwv_observe_str(y, 1) : NULL, *after;
